@@ -273,6 +273,53 @@ def _inline_once(f, top, meths, eligible, _copy):
                                 new.append(rn)
                             stmts[i:i + 1] = new
                             return True
+            # a procedure call as a statement: `self.helper(args)` / `helper(args)` where the helper has no
+            # return statement: its body is spliced in place if none of its local names occurs in the caller
+            if isinstance(st, ast.Expr) and isinstance(st.value, ast.Call) and not st.value.keywords \
+                    and not any(isinstance(a, ast.Starred) for a in st.value.args):
+                c = st.value
+                g = None
+                skip_self = False
+                if isinstance(c.func, ast.Name) and c.func.id in top and top[c.func.id] is not f:
+                    g = top[c.func.id]
+                elif isinstance(c.func, ast.Attribute) and isinstance(c.func.value, ast.Name) \
+                        and c.func.value.id == 'self' and c.func.attr in meths and meths[c.func.attr] is not f \
+                        and f.args.args and f.args.args[0].arg == 'self':
+                    g = meths[c.func.attr]
+                    skip_self = True
+                if g is not None and eligible(g) and not any(isinstance(x, ast.Return) for x in _scope_walk(g)):
+                    params = [a.arg for a in g.args.args]
+                    if skip_self and params and params[0] == 'self':
+                        params = params[1:]
+                    elif skip_self:
+                        params = None
+                    if params is not None and len(params) == len(c.args):
+                        pairs = [(p_, a_) for p_, a_ in zip(params, c.args)
+                                 if not (isinstance(a_, ast.Name) and a_.id == p_)]
+                        glocals = {p_ for p_, _a in pairs} | {
+                            x.id for x in _scope_walk(g) if isinstance(x, ast.Name) and isinstance(x.ctx, ast.Store)}
+                        fnames = {x.id for x in ast.walk(f) if isinstance(x, ast.Name)} | {a.arg for a in f.args.args}
+                        # local names of the helper that also occur in the caller are renamed in the copy
+                        ren = {nm: '%s__%s' % (nm, g.name) for nm in glocals & fnames}
+                        if not any(v in fnames for v in ren.values()):
+                            new = []
+                            for p_, a_ in pairs:
+                                asg = ast.Assign(targets=[ast.Name(id=ren.get(p_, p_), ctx=ast.Store())], value=a_,
+                                                 type_comment=None)
+                                ast.copy_location(asg, st)
+                                ast.fix_missing_locations(asg)
+                                new.append(asg)
+                            body = [_copy.deepcopy(x) for x in g.body]
+                            if ren:
+                                for b_ in body:
+                                    for x in ast.walk(b_):
+                                        if isinstance(x, ast.Name) and x.id in ren:
+                                            x.id = ren[x.id]
+                            if body and isinstance(body[0], ast.Expr) and isinstance(body[0].value, ast.Constant) \
+                                    and isinstance(body[0].value.value, str):
+                                body = body[1:]
+                            stmts[i:i + 1] = new + body
+                            return True
             for fld in ('body', 'orelse', 'finalbody'):
                 sub = getattr(st, fld, None)
                 if isinstance(sub, list) and not isinstance(st, (ast.FunctionDef, ast.ClassDef, ast.AsyncFunctionDef)):
